@@ -1329,3 +1329,286 @@ Proof.
   - exists tr. exact Hrun.
   - eapply unflipped_run; eauto. intros m ip. reflexivity.
 Qed.
+
+(* ------------------------------------------------------------------ witnesses (closed computations) *)
+
+Definition wcfg : config :=
+  mkCfg [mkMc 0 [167772161%N] []; mkMc 1 [167772162%N] []] 65535.
+Definition wcfg_subnet : config :=
+  mkCfg [mkMc 0 [167772161%N] [(167772161%N, mkSn 4294967040 167772162)]; mkMc 1 [167772162%N] []] 65535.
+
+(* recorded from the implementation, case `0 0 | 167772161:-;167772162:- | L 0 0 167772161;L 1 0 167772162;R 1 0 0 167772161 167772162 0 0;R 2 0 100 167772161 167772162 0 0 | d 18:k,19:y200`;
+   observed results: 1 err 2000000000 2 ok:1 2000000000 *)
+Definition wtrace_race : list (Z * label) :=
+  [(0, LListen 0 167772161);
+   (0, LListen 1 167772162);
+   (0, LStart 0 1 (mkPair 167772161 167772162) 0);
+   (0, LDrop (mkPkt Request 0 167772161 69 167772162) 0);
+   (0, LDrop (mkPkt Request 0 167772161 69 167772162) 1);
+   (100000000, LStart 0 2 (mkPair 167772161 167772162) 0);
+   (100000000, LDrop (mkPkt Request 0 167772161 69 167772162) 0);
+   (100000000, LDrop (mkPkt Request 0 167772161 69 167772162) 1);
+   (200000000, LPoll 1);
+   (200000000, LDrop (mkPkt Request 0 167772161 69 167772162) 0);
+   (200000000, LDrop (mkPkt Request 0 167772161 69 167772162) 1);
+   (300000000, LPoll 2);
+   (300000000, LDrop (mkPkt Request 0 167772161 69 167772162) 0);
+   (300000000, LDrop (mkPkt Request 0 167772161 69 167772162) 1);
+   (400000000, LPoll 1);
+   (400000000, LDrop (mkPkt Request 0 167772161 69 167772162) 0);
+   (400000000, LDrop (mkPkt Request 0 167772161 69 167772162) 1);
+   (500000000, LPoll 2);
+   (500000000, LDrop (mkPkt Request 0 167772161 69 167772162) 0);
+   (500000000, LDrop (mkPkt Request 0 167772161 69 167772162) 1);
+   (600000000, LPoll 1);
+   (600000000, LDrop (mkPkt Request 0 167772161 69 167772162) 0);
+   (600000000, LDrop (mkPkt Request 0 167772161 69 167772162) 1);
+   (700000000, LPoll 2);
+   (700000000, LDrop (mkPkt Request 0 167772161 69 167772162) 0);
+   (700000000, LDrop (mkPkt Request 0 167772161 69 167772162) 1);
+   (800000000, LPoll 1);
+   (800000000, LDrop (mkPkt Request 0 167772161 69 167772162) 0);
+   (800000000, LDrop (mkPkt Request 0 167772161 69 167772162) 1);
+   (900000000, LPoll 2);
+   (900000000, LDrop (mkPkt Request 0 167772161 69 167772162) 0);
+   (900000000, LDrop (mkPkt Request 0 167772161 69 167772162) 1);
+   (1000000000, LPoll 1);
+   (1000000000, LDrop (mkPkt Request 0 167772161 69 167772162) 0);
+   (1000000000, LDrop (mkPkt Request 0 167772161 69 167772162) 1);
+   (1100000000, LPoll 2);
+   (1100000000, LDrop (mkPkt Request 0 167772161 69 167772162) 0);
+   (1100000000, LDrop (mkPkt Request 0 167772161 69 167772162) 1);
+   (1200000000, LPoll 1);
+   (1200000000, LDrop (mkPkt Request 0 167772161 69 167772162) 0);
+   (1200000000, LDrop (mkPkt Request 0 167772161 69 167772162) 1);
+   (1300000000, LPoll 2);
+   (1300000000, LDrop (mkPkt Request 0 167772161 69 167772162) 0);
+   (1300000000, LDrop (mkPkt Request 0 167772161 69 167772162) 1);
+   (1400000000, LPoll 1);
+   (1400000000, LDrop (mkPkt Request 0 167772161 69 167772162) 0);
+   (1400000000, LDrop (mkPkt Request 0 167772161 69 167772162) 1);
+   (1500000000, LPoll 2);
+   (1500000000, LDrop (mkPkt Request 0 167772161 69 167772162) 0);
+   (1500000000, LDrop (mkPkt Request 0 167772161 69 167772162) 1);
+   (1600000000, LPoll 1);
+   (1600000000, LDrop (mkPkt Request 0 167772161 69 167772162) 0);
+   (1600000000, LDrop (mkPkt Request 0 167772161 69 167772162) 1);
+   (1700000000, LPoll 2);
+   (1700000000, LDrop (mkPkt Request 0 167772161 69 167772162) 0);
+   (1700000000, LDrop (mkPkt Request 0 167772161 69 167772162) 1);
+   (1800000000, LPoll 1);
+   (1800000000, LDeliver (mkPkt Request 0 167772161 69 167772162) 0);
+   (1800000000, LDeliver (mkPkt Request 0 167772161 69 167772162) 1);
+   (1900000000, LPoll 2);
+   (1900000000, LDrop (mkPkt Request 0 167772161 69 167772162) 0);
+   (1900000000, LDrop (mkPkt Request 0 167772161 69 167772162) 1);
+   (2000000000, LPoll 1);
+   (2000000000, LDeliver (mkPkt Reply 1 167772162 0 167772161) 0);
+   (2000000000, LPoll 2)]%Z.
+
+(* recorded from the implementation, case `0 0 | 167772161:167772161/24/167772162;167772162:- | L 0 0 167772161;L 1 0 167772162;R 1 0 0 167772161 167772162 0 0;R 2 0 0 167772161 3232235777 0 0 | k -`;
+   observed results: 1 ok:1 0 2 ok:1 0 *)
+Definition wtrace_agree : list (Z * label) :=
+  [(0, LListen 0 167772161);
+   (0, LListen 1 167772162);
+   (0, LStart 0 1 (mkPair 167772161 167772162) 0);
+   (0, LStart 0 2 (mkPair 167772161 3232235777) 0);
+   (0, LDeliver (mkPkt Request 0 167772161 69 167772162) 0);
+   (0, LDeliver (mkPkt Request 0 167772161 69 167772162) 1);
+   (0, LDeliver (mkPkt Request 0 167772161 69 167772162) 0);
+   (0, LDeliver (mkPkt Request 0 167772161 69 167772162) 1);
+   (0, LDeliver (mkPkt Reply 1 167772162 0 167772161) 0);
+   (0, LDeliver (mkPkt Reply 1 167772162 0 167772161) 0);
+   (0, LPoll 1);
+   (0, LPoll 2)]%Z.
+
+(* recorded from the implementation, case `0 0 | 167772161:-;167772162:- | L 0 0 167772161;L 1 0 167772162;R 1 0 0 167772161 167772199 0 0 | k -`;
+   observed results: 1 err 2000000000 *)
+Definition wtrace_unclaimed : list (Z * label) :=
+  [(0, LListen 0 167772161);
+   (0, LListen 1 167772162);
+   (0, LStart 0 1 (mkPair 167772161 167772199) 0);
+   (0, LDeliver (mkPkt Request 0 167772161 69 167772199) 0);
+   (0, LDeliver (mkPkt Request 0 167772161 69 167772199) 1);
+   (200000000, LPoll 1);
+   (200000000, LDeliver (mkPkt Request 0 167772161 69 167772199) 0);
+   (200000000, LDeliver (mkPkt Request 0 167772161 69 167772199) 1);
+   (400000000, LPoll 1);
+   (400000000, LDeliver (mkPkt Request 0 167772161 69 167772199) 0);
+   (400000000, LDeliver (mkPkt Request 0 167772161 69 167772199) 1);
+   (600000000, LPoll 1);
+   (600000000, LDeliver (mkPkt Request 0 167772161 69 167772199) 0);
+   (600000000, LDeliver (mkPkt Request 0 167772161 69 167772199) 1);
+   (800000000, LPoll 1);
+   (800000000, LDeliver (mkPkt Request 0 167772161 69 167772199) 0);
+   (800000000, LDeliver (mkPkt Request 0 167772161 69 167772199) 1);
+   (1000000000, LPoll 1);
+   (1000000000, LDeliver (mkPkt Request 0 167772161 69 167772199) 0);
+   (1000000000, LDeliver (mkPkt Request 0 167772161 69 167772199) 1);
+   (1200000000, LPoll 1);
+   (1200000000, LDeliver (mkPkt Request 0 167772161 69 167772199) 0);
+   (1200000000, LDeliver (mkPkt Request 0 167772161 69 167772199) 1);
+   (1400000000, LPoll 1);
+   (1400000000, LDeliver (mkPkt Request 0 167772161 69 167772199) 0);
+   (1400000000, LDeliver (mkPkt Request 0 167772161 69 167772199) 1);
+   (1600000000, LPoll 1);
+   (1600000000, LDeliver (mkPkt Request 0 167772161 69 167772199) 0);
+   (1600000000, LDeliver (mkPkt Request 0 167772161 69 167772199) 1);
+   (1800000000, LPoll 1);
+   (1800000000, LDeliver (mkPkt Request 0 167772161 69 167772199) 0);
+   (1800000000, LDeliver (mkPkt Request 0 167772161 69 167772199) 1);
+   (2000000000, LPoll 1)]%Z.
+
+(* the unrestricted "concurrent resolvers get the same answer" is false: resolver 1 (born at 0)
+   exhausts its budget at 2000 ms and returns Err; the reply to its last request reaches the
+   machine at the same instant, after the failure was cached; resolver 2 (born at 100 ms, same
+   machine, same address, still waiting) then returns Ok.  Their lifetimes overlap. *)
+Lemma same_answer_refuted :
+  exists cfg tr s r1 r2 t1 t2 c1 c2 mac,
+    wf_cfg cfg /\ run cfg (init cfg) tr = Ok s /\
+    st_res s 1%N = Some r1 /\ st_res s 2%N = Some r2 /\
+    r_mach r1 = r_mach r2 /\ r_dest r1 = r_dest r2 /\ c1 <> CSend /\ c2 <> CSend /\
+    r_phase r1 = PDone SFailed t1 c1 /\ r_phase r2 = PDone (SOk mac) t2 c2 /\
+    (r_born r1 < t2)%Z /\ (r_born r2 < t1)%Z.
+Proof.
+  exists wcfg, wtrace_race. eexists. do 7 eexists.
+  split; [vm_compute; reflexivity|].
+  split; [vm_compute; reflexivity|].
+  split; [vm_compute; reflexivity|].
+  split; [vm_compute; reflexivity|].
+  cbn [r_mach r_dest r_phase r_born].
+  repeat split; try discriminate; reflexivity.
+Qed.
+
+(* the hypotheses of the positive theorems are satisfiable: a run without late answers in which
+   two concurrent resolvers (one of them sent to the gateway by the /24 subnet rule) both finish *)
+Lemma hypotheses_satisfiable :
+  wf_cfg wcfg_subnet /\ no_late_answer wcfg_subnet (init wcfg_subnet) wtrace_agree /\
+  exists s r1 r2,
+    run wcfg_subnet (init wcfg_subnet) wtrace_agree = Ok s /\
+    st_res s 1%N = Some r1 /\ st_res s 2%N = Some r2 /\
+    r_dest r1 = 167772162%N /\ r_dest r2 = 167772162%N /\ p_remote (r_pair r2) = 3232235777%N /\
+    r_phase r1 = PDone (SOk 1) 0 CCache /\ r_phase r2 = PDone (SOk 1) 0 CCache.
+Proof.
+  split; [vm_compute; reflexivity|].
+  split; [vm_compute; repeat split|].
+  eexists. do 2 eexists.
+  split; [vm_compute; reflexivity|].
+  split; [vm_compute; reflexivity|].
+  split; [vm_compute; reflexivity|].
+  cbn [r_dest r_pair p_remote r_phase]. repeat split.
+Qed.
+
+(* an address nobody claims: all ten requests are delivered, nobody answers, Err after exactly
+   RESEND_TRIES * RESEND_DELAY *)
+Lemma unclaimed_example :
+  exists s r,
+    run wcfg (init wcfg) wtrace_unclaimed = Ok s /\ st_res s 1%N = Some r /\
+    r_phase r = PDone SFailed 2000000000 CBudget /\ r_born r = 0%Z.
+Proof.
+  eexists. eexists.
+  split; [vm_compute; reflexivity|].
+  split; [vm_compute; reflexivity|].
+  cbn [r_phase r_born]. split; reflexivity.
+Qed.
+
+(* ------------------------------------------------------------------ soundness of the validators *)
+
+Lemma run_v_run cfg tr : forall s n s', run_v cfg s tr n = inl s' -> run cfg s tr = Ok s'.
+Proof.
+  induction tr as [|x tr IH]; intros s n s' H; cbn [run_v run] in *.
+  - inversion H. reflexivity.
+  - destruct (step cfg s x) as [s1| | |]; try discriminate. cbn [bind]. eapply IH; eauto.
+Qed.
+
+Lemma run_v_not_accept cfg tr : forall s n, run_v cfg s tr n <> inr Accept.
+Proof.
+  induction tr as [|x tr IH]; intros s n; cbn [run_v]; [discriminate|].
+  destruct (step cfg s x); try discriminate. apply IH.
+Qed.
+
+Lemma status_eqb_eq a b : status_eqb a b = true -> a = b.
+Proof.
+  destruct a, b; cbn; intros H; try discriminate; [|reflexivity].
+  apply N.eqb_eq in H. subst. reflexivity.
+Qed.
+
+Lemma find_none_forall {A} (f : A -> bool) l : find f l = None -> forall x, In x l -> f x = false.
+Proof. intros H x Hx. eapply find_none; eauto. Qed.
+
+(* an accepted trace is a run of the model from the initial state, on a well-formed
+   configuration, whose final state gives every observed resolver exactly the observed result
+   and instant, accounts for every resolver and leaves no frame unaccounted *)
+Lemma validate_sound cfg tr os :
+  validate cfg tr os = Accept ->
+  wf_cfg cfg /\
+  exists s, run cfg (init cfg) tr = Ok s /\ st_net s = [] /\
+    (forall o, In o os -> exists r c, st_res s (o_rid o) = Some r /\
+                                      r_phase r = PDone (o_status o) (o_at o) c) /\
+    (forall rid, In rid (st_rids s) -> exists o, In o os /\ o_rid o = rid).
+Proof.
+  unfold validate. destruct (wf_cfgb cfg) eqn:Hwf; cbn [negb]; [|discriminate].
+  destruct (run_v cfg (init cfg) tr 0) as [s|v] eqn:Hrun;
+    [|intros Hv; subst v; exfalso; eapply run_v_not_accept; eauto].
+  destruct (find (fun o => negb (check_obs s o)) os) eqn:Hobs; [discriminate|].
+  destruct (find (fun rid => negb (observed os rid)) (st_rids s)) eqn:Hmiss; [discriminate|].
+  destruct (st_net s) as [|[p m] rest] eqn:Hnet; [|discriminate].
+  intros _. split; [exact Hwf|]. exists s. split; [eapply run_v_run; eauto|]. split; [exact Hnet|]. split.
+  - intros o Ho. pose proof (find_none_forall _ _ Hobs o Ho) as Hc. apply negb_false_iff in Hc.
+    unfold check_obs in Hc. destruct (st_res s (o_rid o)) as [r|]; [|discriminate].
+    destruct (r_phase r) as [|st t c] eqn:Hp; [discriminate|].
+    apply andb_true_iff in Hc. destruct Hc as [H1 H2]. apply status_eqb_eq in H1. apply Z.eqb_eq in H2.
+    subst. eauto.
+  - intros rid Hin. pose proof (find_none_forall _ _ Hmiss rid Hin) as Hc. apply negb_false_iff in Hc.
+    unfold observed in Hc. apply existsb_exists in Hc. destruct Hc as (o & Ho & He).
+    apply N.eqb_eq in He. eauto.
+Qed.
+
+(* what acceptance means for the property: every observed MAC is the MAC of the one machine
+   that may claim the looked-up address (which is given by the target rule), every observed
+   completion instant lies within the retry budget, and on the exhausted-budget path it is
+   exactly RESEND_TRIES * RESEND_DELAY after the start *)
+Lemma validate_property cfg tr os :
+  validate cfg tr os = Accept ->
+  exists s, run cfg (init cfg) tr = Ok s /\
+    forall o, In o os ->
+      exists r c, st_res s (o_rid o) = Some r /\ r_phase r = PDone (o_status o) (o_at o) c /\
+        r_dest r = target (r_sub r) (r_pair r) /\
+        (forall mac, o_status o = SOk mac -> owner_mac cfg s (r_dest r) mac) /\
+        (r_born r <= o_at o <= r_born r + BUDGET)%Z /\
+        (c = CBudget -> o_status o = SFailed /\ o_at o = (r_born r + BUDGET)%Z).
+Proof.
+  intros H. destruct (validate_sound _ _ _ H) as (Hwf & s & Hrun & _ & Hobs & _).
+  exists s. split; [exact Hrun|]. intros o Ho. destruct (Hobs o Ho) as (r & c & Hr & Hp).
+  assert (Hre : reachable cfg s) by (exists tr; exact Hrun).
+  pose proof (Inv_reachable _ _ Hwf Hre) as [HA HB _ _].
+  exists r, c. split; [exact Hr|]. split; [exact Hp|].
+  destruct (ia_res _ _ HA _ _ Hr) as (_ & Hd & _ & _). split; [exact Hd|]. split.
+  - intros mac E. rewrite E in Hp. eapply never_wrong; eauto.
+  - pose proof (ib_res _ HB _ _ Hr) as [_ Ht]. rewrite Hp in Ht. destruct Ht as (H1 & H2 & H3 & _).
+    split; [lia|exact H3].
+Qed.
+
+Lemma validate_results_sound cfg os :
+  validate_results cfg os = true ->
+  wf_cfg cfg /\
+  forall o mac, In o os -> ro_status o = SOk mac ->
+    exists i, (i < n_machs cfg)%nat /\ mac = mac_of cfg i /\
+              In (target (ro_sub o) (ro_pair o)) (claims_of cfg i) /\
+              forall j, (j < n_machs cfg)%nat -> In (target (ro_sub o) (ro_pair o)) (claims_of cfg j) -> j = i.
+Proof.
+  unfold validate_results. intros H. apply andb_true_iff in H. destruct H as [Hwf Hall].
+  split; [exact Hwf|]. intros o mac Ho Hs. rewrite forallb_forall in Hall. specialize (Hall o Ho).
+  unfold check_robs in Hall. rewrite Hs in Hall. apply existsb_eqb_In in Hall.
+  unfold owner_macs in Hall. apply in_map_iff in Hall. destruct Hall as (i & He & Hi).
+  apply filter_In in Hi. destruct Hi as [Hi Hc]. apply claimsb_In in Hc.
+  unfold all_machs in Hi. apply in_seq in Hi.
+  exists i. split; [lia|]. split; [auto|]. split; [exact Hc|].
+  intros j Hj Hcj. eapply (owner_unique cfg Hwf); eauto. lia.
+Qed.
+
+Lemma cached_failure_origin cfg s m ip :
+  wf_cfg cfg -> reachable cfg s -> ms_table (st_machs s m) ip = Some SFailed ->
+  exists rid r t, st_res s rid = Some r /\ r_mach r = m /\ r_dest r = ip /\
+                  r_phase r = PDone SFailed t CBudget.
+Proof. intros Hwf Hre. exact (inv_d _ _ (Inv_reachable _ _ Hwf Hre) m ip). Qed.
